@@ -17,10 +17,11 @@ from ..spec import MARKERS
 LEVEL = "exploration"
 SHARDS = {"quick": 1, "thorough": 16}
 REQUIRED = ("prefix_cases", "suffix_cases", "failing_cases_shifted", "values_compared", "end_offsets_compared",
-            "raw_slice_equivalence", "hostile_pre_with_delimiters", "nested_families", "moves_under_offset")
+            "raw_slice_equivalence", "hostile_pre_with_delimiters", "nested_families", "moves_under_offset",
+            "inputs_of_declarations_with_a_position_before_the_wrapper")
 MIN_NONTRIVIAL = 150
 RULE = {
-    "quick": "~420 generated families (no 'begins' reference, no class align, no repeated(aligned=), no raw/offset callbacks) x 8 inputs x 4 "
+    "quick": "~140 families of mostly fixed-size fields placed back over consumed bytes (at / negative shift) + ~420 generated families (no 'begins' reference, no class align, no repeated(aligned=), no raw/offset callbacks) x 8 inputs x 4 "
              "paddings (prefix only, suffix only, both, long prefix made of copies of raw/delimiters/0xff) + failing inputs (truncations) with prefixes; "
              "generic and generated variants. Non-trivial = padded run of an input whose unpadded parse consumed at least one byte; distinct = "
              "(skeleton, padding kind, outcome).",
@@ -85,6 +86,12 @@ def one_input(run, bench, rng, raw, sampled):
     if st == "ok" and mr.trace.extent <= len(raw):
         used = raw[:mr.trace.extent]
     can_post = post_allowed(fam)
+    if any("lost_move" in f for d in fam["decls"].values() for f in d["fields"]):
+        # a position written before .when()/.repeated(): the reference model has no opinion on what it does, so neither
+        # the extent of the parsed region nor suffixes are derived from it; the prefix relation needs no model
+        used = raw
+        can_post = False
+        run.count("inputs_of_declarations_with_a_position_before_the_wrapper")
     for v in ("g", "d"):
         cls = bench.root(v)
         base = summarize(fam, harness.lib_unpack(cls, used, 0))
@@ -168,12 +175,18 @@ def run(run):
     rng = rng_for(run.seed, "c14", shard)
     nfam = 420 if run.tier == "quick" else 2000
     ninputs = 8 if run.tier == "quick" else 10
-    profile = {"allow_begins": False, "allow_raw_callbacks": False, "p_class_align": 0.0, "p_move": 0.22,
+    profile = {"allow_begins": False, "allow_raw_callbacks": False, "p_class_align": 0.0, "p_move": 0.22, "p_move_first": 0.3,
                "references": {"innermost-pkt": 5, "begins": 0, "current-offset": 3}}
     if run.tier == "thorough":
         profile["max_depth"] = 4
     sampled = [0]
-    for bench in driver.families(run, rng, profile, VARIANTS, nfam, instrument=(), tag="c14"):
+    # second population: mostly fixed-size fields, many of them placed back over bytes an earlier field consumed (at / negative
+    # shift): packets shorter than the sum of their fields, whose input ends exactly where the packet ends
+    overlap = dict(profile, p_move=0.5, p_backward_at=0.75, moves={"at": 5, "shift": 5, "aligned": 1}, p_rep=0.04, p_opt=0.03, p_move_first=0.0,
+                   kinds={"int": 60, "data": 28, "bits": 4, "ref": 7, "sel": 0, "em": 1}, max_fields=5, int_widths=[1, 1, 2, 2, 4, 3])
+    import itertools
+    for bench in itertools.chain(driver.families(run, rng, profile, VARIANTS, nfam, instrument=(), tag="c14"),
+                                 driver.families(run, rng, overlap, VARIANTS, nfam // 3, instrument=(), tag="c14o")):
         fam = bench.fam
         # repeated(aligned=) is relative to the start of the data: drop such families (statement exclusion)
         if harness.has_begins_reference(fam) or harness.uses_raw_callbacks(fam):
